@@ -777,6 +777,14 @@ class E2Meta(ScriptEngine):
             """Returns (text in P, text in P')."""
 
             text = repr(value)
+            if kind in ("int", "pin") and isinstance(value, int) and r.random() < 0.4:
+                from dst.gen.constexpr import const_int_expr
+
+                # the literal form P folds a name-free expression; the named form P' carries the plain value
+                folded = const_int_expr(r, value)
+                nm = name()
+                binds.append(f"{nm} = {text}")
+                return folded, nm
             if r.random() < 0.25:
                 return text, text
             nm = name()
